@@ -209,6 +209,14 @@ func (f *fnTrans) instr(ins ssa.Instruction) {
 		f.factHere(Eq(App(card, SInt, Select(f.heap(dom), r)), Add(App(card, SInt, oldDom), Ite(Select(oldDom, k), IntLit(0), IntLit(1)))))
 	case *ssa.Range:
 		f.vals[ins] = f.val(ins.X)
+		if m, ok := ins.X.Type().Underlying().(*types.Map); ok {
+			// the keys this range loop has already delivered (each key is delivered at most once)
+			h := f.w.VisitedHeap(m)
+			it := f.alloc()
+			f.rangeIter[ins] = it
+			ks := f.w.SortOf(m.Key())
+			f.setHeap(h, Store(f.heap(h), it, Term{fmt.Sprintf("((as const %s) false)", ArrSort(ks, SBool)), ArrSort(ks, SBool)}))
+		}
 	case *ssa.Next:
 		f.next(ins)
 	case *ssa.Call:
@@ -685,6 +693,14 @@ func (f *fnTrans) next(ins *ssa.Next) {
 	v := Select(Select(f.heap(val), r), k)
 	f.factHere(Implies(okT, And(Ne(r, IntLit(0)), Select(Select(f.heap(dom), r), k))))
 	f.factHere(f.rangeFact(k, m.Key()))
+	if it, ok := f.rangeIter[rng]; ok {
+		h := f.w.VisitedHeap(m)
+		vis := Select(f.heap(h), it)
+		f.factHere(Implies(okT, Not(Select(vis, k))))
+		// if the range is exhausted every key of the map has been delivered (the map is not modified meanwhile)
+		f.factHere(Implies(Not(okT), Term{fmt.Sprintf("(forall ((kk %s)) (! (=> (select (select %s %s) kk) (select %s kk)) :pattern ((select %s kk))))", f.w.SortOf(m.Key()), f.heap(dom).S, r.S, vis.S, vis.S), SBool}))
+		f.setHeap(h, Store(f.heap(h), it, Ite(okT, Store(vis, k, True), vis)))
+	}
 	vv := f.define("rng_v", v)
 	f.factHere(f.rangeFact(vv, m.Elem()))
 	f.tupleVals[ins] = []Term{okT, k, vv}
